@@ -10,6 +10,7 @@ import random
 import re
 
 from harness import markup_lib as ml
+from harness import odftext
 from harness.common import Run
 from harness.para_lib import chars, cps
 from harness.tlc import make_cfg, run_tlc
@@ -80,6 +81,11 @@ def rand_history(seed: int) -> list:
         ev, par = event(par, o, tokens, rng.randint(0, 5))
         events.append(ev)
         if "exc" in ev and ev["exc"].startswith("crash"):
+            break
+        # the deletion of an element standing between two blanks leaves two raw blanks side by side: a consumer reads one, and a
+        # later operation may store one - the history ends there (states are required to be in the normal form the API writes)
+        root = ml.tl.parse_wrapped(par.serialize())[0]
+        if odftext.collapse(root) != odftext.plain(root):
             break
     return events
 
